@@ -167,7 +167,7 @@ func (s c03Scn) configs(obs *c03Obs) (*dtlsConfig, *dtlsConfig) {
 		case "expired":
 			sv.Certificates = []tls.Certificate{cr.Expired}
 		case "selfsigned":
-			sv.Certificates = []tls.Certificate{cr.SelfSrv}
+			sv.Certificates = []tls.Certificate{c03SelfSigned()}
 		case "substituted":
 			sv.Certificates = []tls.Certificate{c03WithKey(cr.Server, cr.RogueSrv.PrivateKey)}
 		case "garbage_sig":
@@ -199,7 +199,7 @@ func (s c03Scn) configs(obs *c03Obs) (*dtlsConfig, *dtlsConfig) {
 			c.Certificates = []tls.Certificate{c03WithKey(cr.Client, c03Signer{signer(cr.Client.PrivateKey), "other"})}
 		case "bad_scheme":
 			// the server's list excludes Ed25519 although its CertificateRequest names it
-			sv.Certificates = []tls.Certificate{cr.SelfSrv}
+			sv.Certificates = []tls.Certificate{c03SelfSigned()}
 			sv.SignatureSchemes = []tls.SignatureScheme{tls.ECDSAWithP256AndSHA256}
 			sv.CertificateRequestMessageHook = func(m handshake.MessageCertificateRequest) handshake.Message {
 				m.SignatureHashAlgorithms = append(append(m.SignatureHashAlgorithms[:0:0], m.SignatureHashAlgorithms...),
@@ -349,6 +349,9 @@ func runC03(t *testing.T, scn c03Scn) c03Obs {
 
 	return obs
 }
+
+// fixed self-signed server certificate (the lab's SelfSrv is generated anew in every process)
+func c03SelfSigned() tls.Certificate { return vKeyPair(c03PemSelfSigned[0], c03PemSelfSigned[1]) }
 
 func c03ID(s c03Scn) string {
 	id := fmt.Sprintf("v%d/%s/h=%s/%s/p%d/skip=%v/vpc=%s/vc=%s/t=%s",
